@@ -5,6 +5,15 @@
 //         scal: inplace = blas::scal(alpha, x), opmul = x *= alpha (blas::operators)
 //         copy: inplace = blas::copy(x, y), assign = y = blas::copy(x), construct = multi::array<T,1> r = blas::copy(x)
 //         scal / swap: inplace;  nrm2 / asum / iamax: value
+// Expression forms (follow-up 3; `tree scales=f1;f2..` carries the extra scalars):
+//         axpy: range_plus / range_minus = y += / -= blas::axpy(alpha, x);  rescaled_plus / rescaled_minus = the same after r *= f1, r *= f2, ...;
+//               plain_plus / plain_minus = y += x / y -= x (blas::operators);  call1 = blas::axpy(x, y);
+//               binplus / binminus = r = x + y / x - y (blas::operators: a copy of x, then += / -= y)
+//         dot:  plus = +blas::dot(x, y);  comma = (x, y) (blas::operators);  times = f2 * (f1 * blas::dot(x, y));
+//               eq = blas::dot(x, y) == value;  elem = z[1] = blas::dot(x, y)
+//         scal: range = x *= blas::scal(alpha);  iter = blas::scal(alpha, x.begin(), x.end())
+//         copy: shift = y << x (blas::operators)
+//         nrm2: plus = +blas::nrm2(x);  opabs = abs(x), opnorm = norm(x) (blas::operators; norm is the square)
 template<class T> struct real_of { using type = T; };
 template<class R> struct real_of<std::complex<R>> { using type = R; };
 
@@ -34,13 +43,20 @@ template<class T> void run_level1(Case const& cs) {
 	auto vy = make_vec(by, sy);
 	T const alpha = mk<T>(cs.a_re, cs.a_im);
 	std::string const& op = cs.routine;
-	bool const y_out = (op == "axpy" || op == "copy" || op == "swap");
+	std::string const& form = cs.form;
+	Tree const tr = parse_tree(cs.tree);
+	std::vector<T> extra;   // the extra scalars of the expression forms
+	for(auto const& f : parse_scales(tr.get("scales", "-"))) { extra.push_back(mk<T>(f.first, f.second)); }
+	if(!cs.tree.empty()) { std::cout << "T " << g_id << " scales=" << tr.get("scales", "-") << "\n"; }
+	bool const bin = (op == "axpy" && (form == "binplus" || form == "binminus"));   // the result is a new array; x and y are inputs
+	bool const y_out = (op == "axpy" || op == "copy" || op == "swap") && !bin;
 	bool const x_out = (op == "scal" || op == "swap");
 	bool const uses_y = (op == "dot" || op == "axpy" || op == "copy" || op == "swap");
-	std::string outcome, result = "na";
+	Outcome outcome;
+	std::string result = "na";
 	multi::array<T, 1> fresh;
 	idx const n = sx.len;
-	std::vector<T> ex_x, ex_y;   // expected logical contents after the call
+	std::vector<T> ex_x, ex_y, ex_bin;   // expected logical contents after the call (ex_bin: of the array x + y / x - y)
 	T ex_s{};                    // expected scalar
 	double ex_r = 0.0;
 	idx ex_i = 0;
@@ -55,11 +71,22 @@ template<class T> void run_level1(Case const& cs) {
 			for(idx i = 0; i != y.size(); ++i) { ys.push_back(at1<T>(y, i)); }
 			ex_x = xs; ex_y = ys;
 			if(op == "dot") { for(idx i = 0; i != n; ++i) { ex_s += xs[static_cast<std::size_t>(i)] * ys[static_cast<std::size_t>(i)]; } }
-			if(op == "axpy") { T const al = (cs.form == "opminus") ? -alpha : alpha; for(idx i = 0; i != n; ++i) { ex_y[static_cast<std::size_t>(i)] = al * xs[static_cast<std::size_t>(i)] + ys[static_cast<std::size_t>(i)]; } }
+			if(op == "dot" && form == "times") { for(auto const& f : extra) { ex_s = f * ex_s; } }
+			if(op == "axpy" && !bin) {
+				T al = alpha;
+				if(form == "plain_plus" || form == "plain_minus" || form == "call1") { al = mk<T>(1, 0); }
+				if(form == "rescaled_plus" || form == "rescaled_minus") { for(auto const& f : extra) { al = al * f; } }
+				bool const minus = (form == "opminus" || form == "range_minus" || form == "rescaled_minus" || form == "plain_minus");
+				for(idx i = 0; i != n; ++i) {
+					T const t = al * xs[static_cast<std::size_t>(i)];
+					ex_y[static_cast<std::size_t>(i)] = minus ? ys[static_cast<std::size_t>(i)] - t : ys[static_cast<std::size_t>(i)] + t;
+				}
+			}
+			if(bin) { ex_bin = xs; for(idx i = 0; i != n; ++i) { ex_bin[static_cast<std::size_t>(i)] = (form == "binminus") ? xs[static_cast<std::size_t>(i)] - ys[static_cast<std::size_t>(i)] : xs[static_cast<std::size_t>(i)] + ys[static_cast<std::size_t>(i)]; } }
 			if(op == "scal") { for(idx i = 0; i != n; ++i) { ex_x[static_cast<std::size_t>(i)] = alpha * xs[static_cast<std::size_t>(i)]; } }
 			if(op == "copy") { ex_y = xs; }
 			if(op == "swap") { ex_y = xs; ex_x = ys; }
-			if(op == "nrm2") { for(auto const& e : xs) { ex_r += norm2(e); } ex_r = std::sqrt(ex_r); }
+			if(op == "nrm2") { for(auto const& e : xs) { ex_r += norm2(e); } if(form != "opnorm") { ex_r = std::sqrt(ex_r); } }
 			if(op == "asum") { for(auto const& e : xs) { ex_r += abs1(e); } }
 			if(op == "iamax") { double best = -1.0; for(idx i = 0; i != n; ++i) { double a = abs1(xs[static_cast<std::size_t>(i)]); if(a > best) { best = a; ex_i = i; } } }
 			c13_log_clear();
@@ -69,23 +96,55 @@ template<class T> void run_level1(Case const& cs) {
 			outcome = guarded([&] {
 				if(op == "dot") {
 					if constexpr(!(conj_x && conj_y)) {
-						if(cs.form == "inplace") { blas::dot(x, y, sres); }
+						if(form == "inplace") { blas::dot(x, y, sres); }
+						else if(form == "plus") { sres = +blas::dot(x, y); }
+						else if(form == "comma") { using namespace blas::operators; T r = (x, y); sres = r; }
+						else if(form == "times") {
+							if(extra.empty()) { T r = blas::dot(x, y); sres = r; }
+							else { T r = extra[0] * blas::dot(x, y); for(std::size_t k = 1; k < extra.size(); ++k) { r = extra[k] * r; } sres = r; }
+						}
+						else if(form == "eq") { bool const same = (blas::dot(x, y) == ex_s); sres = same ? ex_s : mk<T>(-99, -98); }
+						else if(form == "elem") { multi::array<T, 1> zz({3}, mk<T>(-1, -1)); zz[1] = blas::dot(x, y); sres = zz[1]; }
 						else { T r = blas::dot(x, y); sres = r; }
 					}
 				} else if constexpr(!conj_x && !conj_y) {
 					if(op == "axpy") {
-						if(cs.form == "inplace") { blas::axpy(alpha, x, y); }
-						else if(cs.form == "opplus") { using namespace blas::operators; std::move(y) += alpha * x; }
-						else { using namespace blas::operators; std::move(y) -= alpha * x; }
+						auto const& xc = x;   // blas::axpy(a, x) needs a const x: with a mutable one the two-argument overload axpy(x, y) is selected (does not compile)
+						auto const& yc = y;
+						if(form == "inplace") { blas::axpy(alpha, x, y); }
+						else if(form == "opplus") { using namespace blas::operators; std::move(y) += alpha * x; }
+						else if(form == "opminus") { using namespace blas::operators; std::move(y) -= alpha * x; }
+						else if(form == "range_plus") { std::move(y) += blas::axpy(alpha, xc); }
+						else if(form == "range_minus") { std::move(y) -= blas::axpy(alpha, xc); }
+						else if(form == "rescaled_plus" || form == "rescaled_minus") {
+							auto&& r = blas::axpy(alpha, xc);
+							for(auto const& f : extra) { r *= f; }
+							if(form == "rescaled_plus") { y += r; } else { y -= r; }
+						}
+						else if(form == "plain_plus") { using namespace blas::operators; std::move(y) += xc; }
+						else if(form == "plain_minus") { using namespace blas::operators; std::move(y) -= xc; }
+						else if(form == "call1") { blas::axpy(xc, std::move(y)); }
+						else if(form == "binplus") { using namespace blas::operators; fresh = xc + yc; }
+						else if(form == "binminus") { using namespace blas::operators; fresh = xc - yc; }
+						else { throw std::runtime_error("harness: unknown axpy form"); }
 					} else if(op == "scal") {
-						if(cs.form == "inplace") { blas::scal(alpha, x); } else { using namespace blas::operators; x *= alpha; }
+						if(form == "inplace") { blas::scal(alpha, x); }
+						else if(form == "range") { std::move(x) *= blas::scal(alpha); }
+						else if(form == "iter") { blas::scal(alpha, x.begin(), x.end()); }
+						else { using namespace blas::operators; x *= alpha; }
 					}
 					else if(op == "copy") {
-						if(cs.form == "inplace") { blas::copy(x, y); }
+						if(form == "inplace") { blas::copy(x, y); }
+						else if(form == "shift") { using namespace blas::operators; std::move(y) << x; }
 						else if(cs.form == "assign") { y = blas::copy(x); }
 						else { multi::array<T, 1> r = blas::copy(x); fresh = std::move(r); }
 					} else if(op == "swap") { blas::swap(x, y); }
-					else if(op == "nrm2") { Real r = blas::nrm2(x); rres = r; }
+					else if(op == "nrm2") {
+						if(form == "plus") { rres = +blas::nrm2(x); }
+						else if(form == "opabs") { using namespace blas::operators; Real r = abs(x); rres = r; }
+						else if(form == "opnorm") { using namespace blas::operators; rres = norm(x); }   // the square of the norm
+						else { Real r = blas::nrm2(x); rres = r; }
+					}
 					else if(op == "asum") { blas::asum(x, rres); }  // the value form asum(x) is ill-formed for views (asum.hpp:48 takes &x_ of a subarray)
 					else if(op == "iamax") { got_i = blas::iamax(x.begin(), x.end()); }  // iamax(x) is ill-formed for views when assertions are on (iamax.hpp:27: offset(x))
 					else { throw std::runtime_error("harness: unknown level-1 routine"); }
@@ -106,6 +165,10 @@ template<class T> void run_level1(Case const& cs) {
 						if(fresh.size() != n) { result = "bad:shape"; }
 						else { for(idx i = 0; i != n; ++i) { if(fresh[i] != ex_y[static_cast<std::size_t>(i)] && result == "ok") { result = "bad:r[" + std::to_string(i) + "]"; } } }
 					} else { cmpvec(y, ex_y, "y"); }
+				}
+				if(bin) {
+					if(fresh.size() != n) { result = "bad:shape"; }
+					else { for(idx i = 0; i != n; ++i) { if(fresh[i] != ex_bin[static_cast<std::size_t>(i)] && result == "ok") { result = "bad:r[" + std::to_string(i) + "]=" + show(static_cast<T>(fresh[i])) + "!=" + show(ex_bin[static_cast<std::size_t>(i)]); } } }
 				}
 				if(op == "dot" && sres != ex_s) { result = "bad:dot=" + show(sres) + "!=" + show(ex_s); }
 				if(op == "nrm2" || op == "asum") {
